@@ -49,6 +49,9 @@ CLAIMED['C22'] = ("the replica decision (Preview + Tokenize + checkExecuteFromSl
 CLAIMED['C30'] = ("the real handleHandshakeResponse (plugin/length dispatch, UserManager.Check*, mysql.CalcPassword / CheckHashPassword / CalcCachingSha2Password) accepts a response iff it is the native or caching-sha2 proof of a stored password, for a symbolic 20-byte salt, stored passwords in clear (1..2 symbolic bytes) or as '*' hash of a symbolic 20-byte value, responses of length 0/19/20/21/32 and the three plugin names",
     "SHA-1 and SHA-256 are uninterpreted, collision-free functions (Ackermann constraints written in the harness; natively patched with mockey so that replays run under the same model): the hash implementations and collision resistance are outside the claim; hex decoding of the stored hash is a non-forking stub under the engine; known findings C30-hash-*")
 
+CLAIMED['C33'] = ("decrypt(key, encrypt(key, d)) == d for every plain text of 0..33 bytes and key lengths 16/24/32 (other lengths rejected) through the real pkcs5 padding, ECB block loops and error paths; decrypting arbitrary data (0..33 bytes) fails or yields data without panicking; FullDirPath / FullNamespacePath of every path <= 6 bytes over {/ . a \\ * NUL} stay inside the storage directory or are rejected",
+    "the AES block is a symbolic XOR bijection (mockey natively) and base64 an opaque bijection (engine stub): AES, base64, JSON encoding, etcd and file I/O are outside the claim, so 'equal to the submitted configuration' is decided for the encrypted credential fields only")
+
 NA_REASON = "check not built yet (work in progress; see DESIGN.md section 3 for the planned harness)"
 NA = {}
 
